@@ -513,12 +513,24 @@ def run(chk, repo):
                     # evaluate the test with every name resolved to a number
                     def numeric(e_):
                         return resolve(e_).subst({"lm": RF.const(lmv), "len_items": RF.const(have)})
-                    if isinstance(t_, ast.Compare) and len(t_.ops) == 1:
-                        lv, rv = numeric(t_.left), numeric(t_.comparators[0])
-                        d_ = (lv - rv)
-                        dv = d_.as_int() if hasattr(d_, "as_int") else None
-                        op_ = type(t_.ops[0])
-                        diff_ok = {ast.Lt: dv < 0, ast.LtE: dv <= 0, ast.Gt: dv > 0, ast.GtE: dv >= 0, ast.Eq: dv == 0, ast.NotEq: dv != 0}.get(op_)
+                    def truth_(t2):
+                        if isinstance(t2, ast.UnaryOp) and isinstance(t2.op, ast.Not):
+                            r2 = truth_(t2.operand)
+                            return None if r2 is None else (not r2)
+                        if isinstance(t2, ast.BoolOp):
+                            vals_ = [truth_(v2) for v2 in t2.values]
+                            if any(v2 is None for v2 in vals_):
+                                return None
+                            return all(vals_) if isinstance(t2.op, ast.And) else any(vals_)
+                        if isinstance(t2, ast.Compare) and len(t2.ops) == 1:
+                            lv, rv = numeric(t2.left), numeric(t2.comparators[0])
+                            dv = (lv - rv).as_int()
+                            return {ast.Lt: dv < 0, ast.LtE: dv <= 0, ast.Gt: dv > 0, ast.GtE: dv >= 0, ast.Eq: dv == 0,
+                                    ast.NotEq: dv != 0}.get(type(t2.ops[0]))
+                        if isinstance(t2, ast.Name):
+                            return numeric(t2).as_int() != 0
+                        return None
+                    diff_ok = truth_(t_)
                     verdicts.append((have, lmv, diff_ok))
                 except Inconclusive:
                     verdicts.append((have, lmv, None))
